@@ -154,6 +154,29 @@ def mk(rng, interleave, nparts):
     return {"meta": meta, "sql": sql, "rows": rows, "stop": True}
 
 
+def mk_within_skew(rng):
+    """WITHIN with partitions whose clocks disagree: each partition's own timestamps stay well inside WITHIN (so WITHIN cuts nothing), while
+    the partitions run hundreds of milliseconds apart and their rows arrive interleaved - a partition's matches are what they are without
+    the others (small ordinal timestamps: the wall-clock sweeper does not apply)"""
+    sc = mk(rng, True, rng.choice([2, 3]))
+    if "PARTITION BY" not in sc["sql"] or "ops" in sc:
+        return None
+    # epoch milliseconds (small ordinals are compared as raw numbers against WITHIN's nanoseconds): partition clocks 3 h and 6 h apart, WITHIN
+    # '1h'; the first partition runs at the wall clock (the engine's sweeper drops runs whose start lies more than WITHIN behind it)
+    import time
+    now_ms = int(time.time() * 1000)
+    bases, nxt = {}, {}
+    for r in sc["rows"]:
+        g = json.dumps(r["g"])
+        if g not in bases:
+            bases[g] = now_ms + [0, 3, 6][len(bases) % 3] * 3600 * 1000
+            nxt[g] = 0
+        nxt[g] += rng.choice([1, 2, 3])
+        r["ts"] = bases[g] + nxt[g]
+    sc["sql"] = sc["sql"].replace(" DEFINE ", " WITHIN '1h' DEFINE ", 1)
+    return sc
+
+
 def mk_allrows(rng, nparts):
     """ALL ROWS PER MATCH with CLASSIFIER(): patterns in which one row may satisfy the DEFINE of two variables (A B* C with rows that are
     both B and C): whatever classification the engine reports must spell a word of the pattern with every row satisfying ITS variable's
@@ -192,6 +215,11 @@ def run(tier):
         scen.append(mk_idle(rng))
     for i in range(250 if quick else 8000):
         scen.append(mk_allrows(rng, [1, 1, 2][i % 3]))
+    made = 0
+    while made < (200 if quick else 6000):
+        sc = mk_within_skew(rng)
+        if sc is not None:
+            scen.append(sc); made += 1
     seqfam.run_scenarios(res, scen, "TraceCep", tag="cep", relayout_p=0.3, retype_p=0.3, rename_p=0.3)
     seqfam.run_pinned(res, "TraceCep")
     res.cov["exhaustive"] = False
